@@ -558,8 +558,25 @@ func (e *engEnv) poisonedRuns(c *EngCase, r interface{ Intn(int) int }) string {
 		}
 		res, _ := e.runCheck(c, true)
 		cres, _ := e.runCheck(c, false)
-		_ = p.Connection(e.ctx).RawQuery("UPDATE keto_relation_tuples SET shard_id = ? WHERE shard_id = ? AND nid = ?", id, bad, p.NetworkID(e.ctx)).Exec()
+		// undo the damage; a goroutine left over from the concurrent run may still hold a read
+		// cursor (SQLITE_LOCKED on the shared in-memory cache), so retry
+		restored := false
+		for try := 0; try < 200 && !restored; try++ {
+			if err := p.Connection(e.ctx).RawQuery("UPDATE keto_relation_tuples SET shard_id = ? WHERE shard_id = ? AND nid = ?", id, bad, p.NetworkID(e.ctx)).Exec(); err == nil {
+				restored = true
+			} else {
+				time.Sleep(5 * time.Millisecond)
+			}
+		}
 		out = append(out, res, cres)
+		if !restored {
+			break
+		}
+	}
+	// whatever happened, the case goes on only with an undamaged store in the recorded order
+	var left []idRow
+	if err := p.Connection(e.ctx).RawQuery("SELECT shard_id FROM keto_relation_tuples WHERE nid = ? AND shard_id LIKE 'zz-%'", p.NetworkID(e.ctx)).All(&left); err != nil || len(left) > 0 {
+		return ""
 	}
 	if len(out) == 0 {
 		return ""
@@ -640,6 +657,22 @@ func (e *engEnv) loadInPlace(text string, strict bool, parsed []namespace.Namesp
 	}
 	e.inPlaceActive = false
 	return false, nil
+}
+
+// storeIntact: no row of the network carries a damaged shard id.
+func (e *engEnv) storeIntact() bool {
+	p := e.persister()
+	type idRow struct {
+		ID string `db:"shard_id"`
+	}
+	var left []idRow
+	for try := 0; try < 100; try++ {
+		if err := p.Connection(e.ctx).RawQuery("SELECT shard_id FROM keto_relation_tuples WHERE nid = ? AND shard_id LIKE 'zz-%'", p.NetworkID(e.ctx)).All(&left); err == nil {
+			return len(left) == 0
+		}
+		time.Sleep(5 * time.Millisecond)
+	}
+	return false
 }
 
 // runFresh runs the check on an engine of its own (a freshly started server), with the
